@@ -376,6 +376,36 @@ def _fixed_descs():
     ]
 
 
+def malformed_cases():
+    """EXHAUSTIVE: every malformed-input / unusable-combination kind x fixed structure (incl. a
+    14-residue one: size-dependent tolerances) x output absent / pre-filled; the non-integral user
+    force field with every charge offset."""
+    out = []
+    kinds = sorted(set(MALFORMED))
+    for di in range(4):
+        for w in kinds:
+            for prefill in (False, True):
+                deltas = range(4) if w == "userff-nonintegral" else [None]
+                for kd in deltas:
+                    c = dict(part="malformed-enum", kind="malformed", what=w, fixed=di, ff=["AMBER", "PARSE", "CHARMM", "AMBER"][di],
+                             prefill=prefill, opts=[], pick=17 * di + 5)
+                    if kd is not None:
+                        c["k_delta"] = kd
+                    out.append(c)
+    return out
+
+
+def check_malformed_enum(case):
+    descs = _fixed_descs() + [dict(chains=[dict(id="A", start=1, seq=["ALA", "SER", "GLY", "LEU", "ASP", "LYS", "THR", "VAL", "ASN", "PHE", "GLU",
+                                                                  "ARG", "MET", "GLN"],
+                                               phi=[-65.0] * 14, psi=[140.0, -45.0, 135.0, 150.0, -40.0, 140.0, 135.0] * 2,
+                                               chi=[[-60.0, 180.0, 60.0, 180.0, -60.0]] * 14, hyd="none", oxt=True, q=[1, 0.2, 0.1, 0.3],
+                                               ter=True)], waters=[])]  # fmt: skip
+    import copy
+
+    return check_fail(dict(case, desc=copy.deepcopy(descs[case["fixed"]])))
+
+
 def inject_cases():
     """EXHAUSTIVE fault enumeration: every stage x exception type x call index x output state."""
     out = []
@@ -401,6 +431,7 @@ def parts(tier):
         Part("success", check_success, strategy=success_case(), budget=dict(quick=480, thorough=10000)),
         Part("fail", check_fail, strategy=fail_case(), budget=dict(quick=320, thorough=8000)),
         Part("inject-enum", check_inject_enum, cases=inject_cases, exhaustive=True),
+        Part("malformed-enum", check_malformed_enum, cases=malformed_cases, exhaustive=True),
     ]
 
 
